@@ -7,7 +7,9 @@ import guards
 CLAIMS = ("R1 at the Join lowering the ON residual is applied as a post-join FilterExec only for Inner/Cross joins: the flag that routes the predicate inside the join, evaluated abstractly for every JoinType, is false exactly for {Inner, Cross}, and every post-join create_filter site lies only on that flag's false side; "
           "R2 the probe-side runtime key filter is published only when, for the join type, rows outside the build key set can be dropped: evaluated for every JoinType x build side, eligible exactly for Inner, or Semi/Anti with the build on the left; "
           "R3 every function of hash_join.rs / spillable.rs that builds or probes a join hash table from key arrays consults key validity (NULL keys never match); "
-          "R4 (= C08.R4) the inner-join-only spill probe is unreachable for other join types.")
+          "R4 (= C08.R4) the inner-join-only spill probe is unreachable for other join types; "
+          "R5 in the probe functions, inside every join-type arm that applies the residual ON predicate (filter_candidate_pairs), each 'this row matched' bit is set from an index that comes out of the filtered pair lists - never from the raw hash matches (a row whose every candidate fails the predicate must stay unmatched so that it is NULL-extended); "
+          "R6 the join output may reuse the probe columns without a gather only under an element-wise identity test of the index vector (Iterator::all over its enumeration), not under a test of a few positions.")
 NOT_DECIDED = "outer-join NULL-extension values; build-side independence of results."
 
 PL = "physical::planner::PhysicalPlanner::create_physical_plan_inner"
@@ -133,3 +135,65 @@ def run(F, R):
             delegated = any("extract_join_key" in c.name or "has_null" in c.name or "contains_null" in c.name for c in calls)
             R.check(validity or delegated, "C22.R3", f"{g.path.split('operators::')[-1]}:key-validity", "a join hash build/probe reads key values without ever consulting their validity: NULL keys would match each other (or match the value under the null slot)", g.loc(), dict(calls=len(calls)))
     R.floor("C22.R3", "join build/probe functions examined", n, 8)
+    # ---- R5: match tracking happens after the residual filter
+    R.rule("C22.R5", "K5 provenance per join-type arm", "matched-bit stores are indexed from filter_candidate_pairs' output wherever the arm applies the residual predicate")
+    HJ = "physical::operators::hash_join"
+    FC = HJ + "::filter_candidate_pairs"
+    roots = sorted({F.bodies[c.fn.path].get("root") or c.fn.path for c in F.callers_of(FC)})
+    R.floor("C22.R5", "probe functions applying the residual predicate", len(roots), 2)
+    n5 = 0
+    for r in roots:
+        rf = F.fn(r)
+        arms = [a for m_ in rf.raw["matches"] if m_["kind"] == "match" and m_["scrut"].endswith("::JoinType") for a in m_["arms"]]
+        regions = [(pat_head(pat_alternatives(a["pat"])[0]).rsplit("::", 1)[-1], a["span"]) for a in arms] or [("all", [0, 0, 10 ** 9, 0])]
+        for g in F.family(r):
+            for c in g.calls():
+                if c.name.rsplit("::", 1)[-1] != "index_mut" or "Vec<bool>" not in (c.self_ty or ""):
+                    continue
+                l = place_local(c.dest)
+                if not any(dst == f"{l}|*" and isinstance(rv[1], dict) and rv[1].get("v") is True for i, j, dst, rv, line in g.stmts()):
+                    continue
+                reg = [(nm, sp) for nm, sp in regions if sp[0] <= c.line <= sp[2]]
+                if not reg:
+                    # outside the join-type dispatch (e.g. a batch-parallel branch in its own closure): the closure is the region
+                    if any(x.name == FC for x in g.calls()):
+                        reg = [(g.path.rsplit("::", 1)[-1], [0, 0, 10 ** 9, 0])]
+                    else:
+                        continue
+                fcl = [x.line for h in F.family(r) for x in h.calls() if x.name == FC]
+                reg = [(nm_, sp_) for nm_, sp_ in reg if any(sp_[0] <= fl <= sp_[2] for fl in fcl)]
+                in_arm_filter = bool(reg)
+                if reg:
+                    nm, sp = min(reg, key=lambda x: x[1][2] - x[1][0])
+                if not in_arm_filter:
+                    continue      # this arm has no residual-predicate stage (Semi/Anti fast path, internal kinds): not decided here
+                n5 += 1
+                w = derives_from(g, [c.args[1]], lambda k, x: (k == "call" and x.name == FC and x) or None)
+                R.check(bool(w), "C22.R5", f"{r.rsplit('::', 1)[-1]}[{nm}]:matched-bit@{_ordinal(F, r, c)}", "a 'matched' bit is set from the raw hash matches although this arm applies the residual ON predicate afterwards: a preserved-side row whose every candidate fails the predicate is marked matched, so it is neither joined nor NULL-extended", g.loc(c.bb), dict())
+    R.floor("C22.R5", "matched-bit stores inside filtering arms", n5, 5)
+    # ---- R6: gather skipped only under an element-wise identity test
+    R.rule("C22.R6", "K5 provenance of a guard", "columns().to_vec() instead of take() only when Iterator::all over the enumerated indices said so")
+    n6 = 0
+    for g in F.in_file("src/physical/operators/hash_join.rs"):
+        tv = [c for c in g.calls() if c.name.rsplit("::", 1)[-1] == "to_vec" and origin(g, c.args[0])[0] == "call" and origin(g, c.args[0])[1].name.endswith("RecordBatch::columns")]
+        tk = [c for c in F.fam_calls(g.path) if c.name.rsplit("::", 1)[-1] == "take" and "arrow" in c.name]
+        if not (tv and tk):
+            continue
+        from c15 import controlling_switches
+        for c in tv:
+            n6 += 1
+            ok6 = False
+            for sb, val in controlling_switches(g, c.bb):
+                si = g.switch_info(sb)
+                if si[0] == "bool" and si[1]:
+                    al = derives_from(g, ["c:" + si[1]], lambda k, x: (k == "call" and x.name.rsplit("::", 1)[-1] == "all" and x) or None)
+                    en = derives_from(g, ["c:" + si[1]], lambda k, x: (k == "call" and x.name.rsplit("::", 1)[-1] == "enumerate" and x) or None)
+                    if al and en:
+                        ok6 = True
+            R.check(ok6, "C22.R6", f"{F.bodies[g.path]['name']}:identity-gather", "the probe columns are emitted as they are (no gather) without an element-wise comparison of the index vector with 0..n: indices such as [0,1,1,3] pass a first/last/length test, and rows come out with build and probe columns of different rows", g.loc(c.bb), dict())
+    R.floor("C22.R6", "gather shortcuts in hash_join.rs", n6, 2)
+
+
+def _ordinal(F, root, c):
+    sites = sorted([(x.line, x.bb) for h in F.family(root) for x in h.calls() if x.name.rsplit("::", 1)[-1] == "index_mut" and "Vec<bool>" in (x.self_ty or "")])
+    return sites.index((c.line, c.bb)) if (c.line, c.bb) in sites else -1
